@@ -24,6 +24,21 @@ type Enc struct {
 	// returns true it has written a replacement field itself.
 	Replace func(e *Enc, idx int, t *Type, tag int) bool
 	nvalues int
+	// OmitSite n > 0: the n-th member that StructBody would write (pre-order over the whole
+	// encoding, all nesting depths) is left out. RecordMembers lists those sites.
+	OmitSite      int
+	RecordMembers bool
+	Members       []MemberSite
+	nmember       int
+	sdepth        int
+}
+
+// MemberSite is one member written by StructBody: Depth 1 = the outermost body.
+type MemberSite struct {
+	Struct string
+	Field  *Field
+	Depth  int
+	Last   bool // last member written in its struct body
 }
 
 // LenSite is the byte range of one embedded length: Kind 0 = string1 length byte,
@@ -191,13 +206,27 @@ func (e *Enc) Value(t *Type, v any, tag int) {
 
 // StructBody encodes the members of sv (what the generated WriteTo produces).
 func (e *Enc) StructBody(sv *SV) {
+	e.sdepth++
+	last := -1
 	for i, f := range sv.St.Fields {
 		v := sv.Fields[i]
 		if !f.Require && !e.KeepDefaults && OmittedWhenOptional(f, v) {
 			continue
 		}
+		e.nmember++
+		if e.RecordMembers {
+			e.Members = append(e.Members, MemberSite{Struct: sv.St.Name, Field: f, Depth: e.sdepth})
+			last = len(e.Members) - 1
+		}
+		if e.nmember == e.OmitSite {
+			continue
+		}
 		e.Value(f.Type, v, f.Tag)
 	}
+	if last >= 0 {
+		e.Members[last].Last = true
+	}
+	e.sdepth--
 }
 
 // EncodeStruct returns the canonical body encoding of sv.
